@@ -298,4 +298,4 @@ def run(ctx, rep):
     # ---- C15.panic ----------------------------------------------------------------------------------------------------------
     auditlib.panic_audit(ctx, rep, "C15", ["G_ctor"], floor_sites=240)
     from rules import C09 as _C09
-    _C09.run(ctx, SubReport(rep, "C09", "C15.fin", only=r"^C09\.(start|order)$"))
+    compose(ctx, rep, "C09", "C15.fin", r"^C09\.(start|order)$")
